@@ -76,6 +76,40 @@ def c04(d):
   ternary = "ternary" in rp["class"]
   alpha = kw.get("alpha")
   tried = 0
+  if clause == "documented_iteration" and ternary and isinstance(alpha, str):
+    # the documented iteration re-done in numpy (float32 like the library) on a heavy-tailed channel (one large, a few
+    # medium, many small weights: the least-squares scale shrinks from round to round) and on a uniform one
+    rank = len(shape)
+    heavy = np.array([3.1] + [1.1] * 20 + [0.62] * 200, dtype=np.float32)
+    uni = np.linspace(-1, 1, heavy.size).astype(np.float32)
+    cols = np.stack([heavy, uni], axis=-1)                       # (221, 2): two output channels
+    t = cols[:, 0] if rank == 1 else cols.reshape((1,) * (rank - 2) + cols.shape)
+    q = cls(**kw)
+    out = np.array(q(tf.constant(t)))
+    axis = None if rank == 1 else tuple(range(rank - 1))
+    xx = t.astype(np.float32)
+    m = np.max(np.abs(xx), axis=axis, keepdims=True) if rank > 1 else np.abs(xx)
+    scale = (2 * m / 3.0).astype(np.float32)
+    if "po2" in alpha:
+      scale = np.power(2.0, np.round(np.log(scale + 1e-7) / np.log(2.0))).astype(np.float32)
+    qq = None
+    for _ in range(int(q.number_of_unrolls)):
+      thres = scale / 2.0
+      v = scale * (np.round((xx / scale) * 3.0) / 3.0)
+      qq = (np.abs(v) >= thres).astype(np.float32) * np.sign(xx)
+      if rank > 1:
+        qx = np.mean(xx * qq, axis=axis, keepdims=True)
+        q2 = np.mean(qq * qq, axis=axis, keepdims=True)
+      else:
+        qx, q2 = xx * qq, qq * qq
+      scale = (qx / (q2 + 1e-7)).astype(np.float32)
+      if "po2" in alpha:
+        scale = np.power(2.0, np.round(np.log(scale + 1e-7) / np.log(2.0))).astype(np.float32)
+    want = scale * qq
+    differ = int(np.sum(~np.isclose(out, want, rtol=1e-4, atol=1e-6)))
+    return {"status": "confirmed" if differ else "refuted",
+            "observed": {"elements_differing_from_documented_iteration": differ, "of": int(out.size),
+                         "scale": np.array(q.scale).reshape(-1).tolist()[:4], "expected_scale": scale.reshape(-1).tolist()[:4]}}
   for t in _tensors(shape, x, rng):
     q = cls(**kw)
     try:
@@ -291,16 +325,17 @@ def c05_linear(d):
     kw["scale_axis"] = int(rp["kwargs"]["scale_axis"])
   shape = tuple(rp["shape"])
   clause = d["clause"]
-  if clause not in ("scale_pos", "scale_group", "scale_po2", "code_range"):
+  kn = int(rp["kwargs"].get("keep_negative", 1))
+  if clause not in ("scale_pos", "scale_group", "scale_po2", "code_range", "max_taken_of", "scale_formula", "max_to_top"):
     return {"status": "unsupported", "detail": "clause %s has no native evaluation" % clause}
   x = w.get("x")
   x = None if x is None else float(Fraction(str(x)))
   rng = np.random.default_rng(0)
-  top = 2 ** (bits - 1) - 1
+  top = 2 ** (bits - kn) - 1
   rank = len(shape)
   tried = 0
   for t in _tensors(shape, x, rng):
-    q = quantizers.quantized_linear(bits, integer, 1, 1, **kw)
+    q = quantizers.quantized_linear(bits, integer, 1 if kn else 0, kn, **kw)
     out = np.array(q(tf.constant(t)), dtype=np.float64)
     scale = np.array(q.quantization_scale, dtype=np.float64)
     tried += 1
@@ -314,6 +349,13 @@ def c05_linear(d):
         bad = {"scale_shape": list(scale.shape), "expected_shape": list(want_shape)}
     if clause == "scale_po2" and not all(_is_po2(v) for v in scale.reshape(-1)):
       bad = {"scale": scale.reshape(-1).tolist()[:6]}
+    if clause in ("max_taken_of", "scale_formula", "max_to_top") and kw["alpha"] == "auto":
+      axes = _group_axes(rank, kw.get("scale_axis")) if rank > 1 else ()
+      src = np.abs(t.astype(np.float64)) if kn else t.astype(np.float64)
+      m = np.max(src, axis=axes, keepdims=True) if rank > 1 else src
+      want = np.maximum((m * 2 / (2 * top)) if kn else (m / top), 1e-7)
+      if scale.shape != want.shape or not np.allclose(scale, want, rtol=1e-5, atol=1e-12):
+        bad = {"scale": scale.reshape(-1).tolist()[:6], "expected_from_group_max_of_%s" % ("|x|" if kn else "x"): want.reshape(-1).tolist()[:6]}
     if clause == "code_range":
       sc = np.broadcast_to(scale, out.shape) if scale.size > 1 else np.full(out.shape, float(scale.reshape(-1)[0]))
       if np.any(np.abs(out) > top * sc * (1 + 1e-6)):
